@@ -29,7 +29,7 @@ def f32(x):
 
 AXES = dict(
     n=[16, 8], shift=[(2, -1), (0, 0), (2, 0), (0, -1)], fill=[[1e-3], [1e-3, 2e-3], [1e-3, 0, 2e-3]], outstep=[2, 1, 3, 5], save=[1, 0, 2],
-    rot=[1.0, 0.5, 1.375], imp=["collimator", "none", "csr"], track=[False, True], renorm=[0, -1, 2])
+    rot=[1.0, 0.5, 1.375, 1.3, 0.7], imp=["collimator", "none", "csr"], track=[False, True], renorm=[0, -1, 2])
 IMP = {"none": ["-G", 0], "collimator": ["-G", -0.03, "--UseCSR", "false", "--CollimatorRadius", 0.002], "csr": ["-G", -0.03]}
 FS = 9e5    # synchrotron frequency dialled so that the bucket spacing is 1.39 phase spaces (keeps the multi-bunch transform short)
 
@@ -130,6 +130,14 @@ def check_file(res, case, key, doc, c, rp):
     # ---- records
     t = D["/Info/AxisValues_t"]["data"]
     tp = D["/PhaseSpace/axis0"]["data"]
+    # the time axis lists every outstep-th step from 0 plus the final step, in synchrotron periods; the number of steps is
+    # ceil(steps per period * T) with T held in single precision, as the program documents by its own log ("k/T")
+    laststep = math.ceil(NPER * f32(c["rot"]) - 1e-9)
+    want_t = [k / NPER for k in range(0, laststep) if c["outstep"] > 0 and k % c["outstep"] == 0] + [laststep / NPER]
+    if len(t) != len(want_t) or max(abs(a - b) for a, b in zip(t, want_t)) > 1e-6:
+        V("time-axis", 0, "/Info/AxisValues_t = %s, output steps / steps per period = %s" % ([round(x, 5) for x in t], want_t))
+    if not tp or abs(tp[-1] - laststep / NPER) > 1e-6 or any(min(abs(x - y) for y in want_t + [0.0]) > 1e-6 for x in tp):
+        V("phase-space-axis", 0, "/PhaseSpace/axis0 = %s is not a selection of the output instants ending with the final step %s" % ([round(x, 5) for x in tp], laststep / NPER))
     ws = simpson(n, f32(dq))
     bp = pl.rows(doc, "/BunchProfile/data")
     ep = pl.rows(doc, "/EnergyProfile/data")
